@@ -4,7 +4,7 @@ Ints: python int | z3 Int (explicit no-signed-overflow checks); floats: Fraction
 pointers: (object, byte offset).  Every access is bounds/initialisation/lifetime checked.  Path forking by re-execution
 with a decision prefix (symcore.EX).  Any unsupported instruction raises NotImplementedError -> the check is inconclusive.
 """
-import re, z3, sys, time, math, struct
+import re, os, z3, sys, time, math, struct
 from fractions import Fraction
 import symcore
 from symcore import CTX, EX, PathEnd, Inconclusive, PIq, to_real, umul
@@ -761,7 +761,7 @@ def footprint(mod, fname, setup, timeout_ms=20000, interp=None):
         args = setup(it)
         it.call(fname, args)
     npaths = nq = 0; conflicts = []; shared = set()
-    for res, pc, hyp, taken, status in symcore.explore(run, timeout_ms=timeout_ms):
+    for res, pc, hyp, taken, status in symcore.explore(run, timeout_ms=timeout_ms, budget_s=float(os.environ.get("VERIF_FOOT_BUDGET", "300"))):
         it = cell["it"]
         if status != "end:footprint":
             if status == "ok": conflicts.append(("no parallel region reached", None, None)); 
